@@ -5,7 +5,7 @@ and return the stored (len, digest)); spec/FreqNorm.tla and spec/PrefixCode.tla 
 (frequency normalisation, Huffman code table) with their invariants.  MC_CodecSession checks the laws of
 the protocol; MC_FreqNorm / MC_PrefixCode model-check a normaliser / code builder written like the code
 over all frequency vectors of 2-4 symbols with counts <= 6 (the FSE normaliser as coded is expected to
-starve a present symbol).  harness bin c01 drives 34 subjects (codec x variant x stream count x preset)
+starve a present symbol).  harness bin c01 drives 50 subjects (codec x variant x stream count x preset)
 through the input families, logs every session and the REAL tables (Rans64Encoder::get_symbol,
 FseTable::dec_symbols, HuffmanTree::get_code); Trace_Codec validates every event.
 """
@@ -114,6 +114,72 @@ def corrupt_codes_missing(run):
     return None
 
 
+def corrupt_norm_zero(run):
+    """result of the public normaliser: a present symbol set to 0 slots"""
+    for e in run:
+        if e.get("op") == "norm" and len(e.get("freq", [])) >= 2:
+            nz = [i for i in range(len(e["freq"])) if e["freq"][i] > 0 and e["norm"][i] > 0]
+            if len(nz) < 2:
+                continue
+            e["norm"] = list(e["norm"])
+            e["norm"][nz[0]] += e["norm"][nz[-1]]
+            e["norm"][nz[-1]] = 0
+            return run
+    return None
+
+
+def corrupt_symstep(run):
+    """symbol-step law: the state read back after decode_symbol differs from the one encoded from"""
+    for e in run:
+        if e.get("op") == "symsteps":
+            items = [dict(i) for i in e["items"]]
+            for i in items:
+                if i["ok"] and i["ds"] == i["s"] and i["dx"] == i["x"]:
+                    i["dx"] = i["dx"] + "1"
+                    e["items"] = items
+                    return run
+    return None
+
+
+def corrupt_symstep_symbol(run):
+    """symbol-step law: decode_symbol returned another symbol"""
+    for e in run:
+        if e.get("op") == "symsteps":
+            items = [dict(i) for i in e["items"]]
+            for i in items:
+                if i["ok"] and i["ds"] == i["s"] and i["dx"] == i["x"]:
+                    i["ds"] = (i["ds"] + 1) % 256
+                    e["items"] = items
+                    return run
+    return None
+
+
+def corrupt_batch_item(run):
+    """batch of round trips: the digest of one decoded payload changed"""
+    for e in run:
+        if e.get("op") == "roundtrips":
+            items = [dict(i) for i in e["items"]]
+            for i in items:
+                if i["eok"] and i["dok"] and i["n"] >= 1:
+                    i["y"] = {"len": i["y"]["len"], "h": [i["y"]["h"][0], (i["y"]["h"][1] + 1) % (1 << 30)]}
+                    e["items"] = items
+                    return run
+    return None
+
+
+def corrupt_batch_blob_id(run):
+    """batch of round trips: two successful encodes report the same blob id"""
+    for e in run:
+        if e.get("op") == "roundtrips":
+            items = [dict(i) for i in e["items"]]
+            ok = [i for i in items if i["eok"]]
+            if len(ok) >= 2:
+                ok[1]["b"] = ok[0]["b"]
+                e["items"] = items
+                return run
+    return None
+
+
 def _first(files, pattern):
     for p in files:
         if pattern in os.path.basename(p):
@@ -169,6 +235,16 @@ def run(ctx):
     ctx.selftest_corrupt(TRACE, rans, corrupt_table_start, "normalised table: two slot ranges overlap")
     ctx.selftest_corrupt(TRACE, huff, corrupt_codes_prefix, "code table: one code made a prefix of another")
     ctx.selftest_corrupt(TRACE, ctxo1 or huff, corrupt_codes_missing, "code table: a symbol that must be codable removed")
+    fsefn = _first(by_name, "c01-fse_fn_fast-")
+    ranssym = _first(by_name, "c01-rans_symenc-")
+    bitf = _first(by_name, "c01-bitfield-")
+    if not (fsefn and ranssym and bitf):
+        raise vlib.ToolError("self-test subjects of the coverage round missing")
+    ctx.selftest_corrupt(TRACE, fsefn, corrupt_norm_zero, "public normaliser result: a present symbol set to 0 slots")
+    ctx.selftest_corrupt(TRACE, ranssym, corrupt_symstep, "symbol-step law: state not restored")
+    ctx.selftest_corrupt(TRACE, ranssym, corrupt_symstep_symbol, "symbol-step law: other symbol decoded")
+    ctx.selftest_corrupt(TRACE, huff, corrupt_batch_item, "batch of round trips: one decoded digest changed")
+    ctx.selftest_corrupt(TRACE, bitf, corrupt_batch_blob_id, "batch of round trips: blob id reused")
     # --- evidence
     cov = ctx.cov
     subs = s1.get("subjects", {})
@@ -202,15 +278,22 @@ def run(ctx):
     cov["exhaustive"] = False
     cov["rule"] = ("one case = (subject, training data, payload) whose encode succeeded on a non-empty payload and whose decode with the matching "
                    "model and the original length was executed and judged by TLC against CodecSession.tla (refused encodes, empty payloads and "
-                   "skipped oversize payloads are not counted); subjects = 34 codec variants (Huffman order 0; contextual order 0/1/2; order-1 "
-                   "x1/x2/x4/x8 through encode_xN and through encode_with_interleaving; 6 SIMD tiers; ParallelHuffman x2/x4/x8; rANS x1/x2/x4/x8 + "
-                   "adaptive; FSE default/fast/high/realtime/balanced + fse_zip; DictionaryCompressor; OptimizedDictionaryCompressor); cases are "
+                   "skipped oversize payloads are not counted); subjects = 50: Huffman order 0 (new / from_frequencies); contextual order 0/1/2; "
+                   "order-1 x1/x2/x4/x8 through encode_xN and through encode_with_interleaving; 6 SIMD tiers; ParallelHuffman x2/x4/x8 (+ "
+                   "high_throughput config); rANS x1/x2/x4/x8, adaptive, symbol-level encode_symbol / decode_symbol crossed with the bulk API; FSE "
+                   "default/fast/high/realtime/balanced, fse_zip, fse_compress(+_with_config), block-parallel (4 x 16 KiB), with_dictionary, "
+                   "table_log 5 / 15, analyze_frequencies training, symbol-level FseTable API; AdaptiveParallelEncoder; DictionaryCompressor and "
+                   "OptimizedDictionaryCompressor (default and with_config / builder setters); BitOps variable-length field pair.  Cases are "
                    "distinct by construction (different subject, training mode same/other/superset, or generated payload).  Input families: all "
-                   "strings over {0x00,'a',0xFF} up to length 6 (superset model: all 1093; own model: all up to length 3 and half of length 4 per "
+                   "strings over {0x00,'a',0xFF} up to length 6 (superset model: all 1093; own model: all up to length 3 and a third of length 4 per "
                    "subject, all in thorough), lengths 0..17 / 23..25 / 31..33 / 63..65 / 99..101 / 127..129 / 255..257 over 2 and 16 symbols, alphabet "
                    "sizes 1,2,3,13..20,64..67,128,255,256 uniform and geometric, Fibonacci counts over 14..22 symbols (thorough ..27), one rare symbol "
                    "in 9000 / 65533 (thorough 10^5, 10^6), all-zero, single symbol, length 0 and 1, text, 64 KiB random and compressible (thorough 1 "
-                   "and 4 MiB).  After every training the real normalised table / code tables are judged by TLC against FreqNorm.tla / PrefixCode.tla.")
+                   "and 4 MiB); one symbol occurring 255/256/4095/4096/65535/65536 times next to rarer symbols that keep slots; total lengths "
+                   "72/73, 1023..1025, 5328/5329, 8191..8193, 32767..32769, 65535..65537 and 200 000 (70/30 split; thorough 2*10^6 and 2^17..2^19 +-1); "
+                   "LZ match lengths 9..12, 19..21, 257..259, 600 and distances 511..513, 32767..32769; bit fields of every width 0..33.  After "
+                   "every training the real normalised table / code tables are judged by TLC against FreqNorm.tla / PrefixCode.tla; the symbol-step "
+                   "law decode_symbol(encode_symbol(s, x)) = (s, x) is judged on boundary and random states.")
     for s in s1.get("samples", [])[:3]:
         ctx.sample(s)
     if huff:
@@ -229,7 +312,9 @@ def run(ctx):
         "contextual code tables are read through ContextualHuffmanEncoder::serialize + HuffmanTree::deserialize (the trees are private); quick judges "
         "the baseline tree and one sampled context tree on half of the trainings, thorough four trees on every training",
         "a panic or Err inside train / encode is an allowed refusal and is counted; a panic, Err, crash or timeout of a matching decode is rejected",
-        "DictionaryCompressor is driven with payloads <= 8 KiB in quick (its matcher is quadratic), OptimizedDictionaryCompressor <= 64 KiB",
+        "DictionaryCompressor is driven with payloads <= 8 KiB in quick (its matcher is quadratic; the window sessions of random bytes up to 40 KB), OptimizedDictionaryCompressor <= 64 KiB (with_config variant 210 KB)",
+        "AdaptiveParallelEncoder: the matching decoder is the one of the algorithm select_optimal_encoding names (Huffman tree of the payload / the uniform rANS table of the adaptive encoder / default FSE)",
+        "symbol-level subjects drive encode_symbol / decode_symbol / renormalize_* in the order the library's own bulk functions use them",
         "bounded: seeded input families (VERIF_SEED); SIMD tiers are the ones this CPU selects; no claim for inputs outside the families",
     ]
 
